@@ -10,7 +10,15 @@ THEOREMS = vcore.theorems_in("SodiumModel/Properties/C01.lean", _T, "Sodium.C01"
 IMPORTS = ["SodiumModel.Properties.C01"] if THEOREMS else ["SodiumModel.Model.Aead"]
 # the portable AEGIS code (aegis*_common.h over the SoftAesBlock backend, softaes.c's table-based round) modelled in the C's structure and proved = Spec at every length
 THEOREMS = THEOREMS + vcore.theorems_in("SodiumModel/Properties/C01Aegis.lean", ['softaes_block_encrypt_is_aes_round', 'softaes_block_encrypt_bytes', 'aes_lut_from_sbox', 'ct_lookup_exact', 'soft_backend_ok', 'softaes_load_store', 'softaes_load64x2_order', 'aegis128l_update_eq', 'aegis256_update_eq', 'aegis128l_init_eq', 'aegis128l_absorb_eq', 'aegis128l_enc_eq', 'aegis128l_dec_eq', 'aegis128l_declast_eq', 'aegis128l_mac_eq', 'aegis256_init_eq', 'aegis256_absorb_eq', 'aegis256_enc_eq', 'aegis256_dec_eq', 'aegis256_declast_eq', 'aegis256_mac_eq', 'aegis128l_encrypt_detached_eq', 'aegis256_encrypt_detached_eq', 'aegis128l_encrypt_detached_generic', 'aegis256_encrypt_detached_generic', 'aegis128l_decrypt_detached_eq', 'aegis256_decrypt_detached_eq', 'aegis128l_decrypt_detached_32', 'aegis256_decrypt_detached_32', 'decrypt_detached_failure_output', 'decrypt_detached_bad_maclen', 'aegis128l_decrypt_detached_rc', 'aegis256_decrypt_detached_rc', 'aegis128l_spec_roundtrip', 'aegis256_spec_roundtrip', 'aegis128l_output_lengths', 'aegis256_output_lengths', 'aegis128l_roundtrip', 'aegis256_roundtrip', 'messagebytes_max', 'crypto_aead_aegis128l_encrypt_detached_eq', 'crypto_aead_aegis256_encrypt_detached_eq', 'crypto_aead_encrypt_combined', 'crypto_aead_aegis128l_encrypt_eq', 'crypto_aead_aegis256_encrypt_eq', 'crypto_aead_aegis128l_decrypt_detached_eq', 'crypto_aead_aegis256_decrypt_detached_eq', 'crypto_aead_decrypt_short', 'crypto_aead_decrypt_combined', 'crypto_aead_aegis128l_decrypt_eq', 'crypto_aead_aegis256_decrypt_eq'], "Sodium.C01Aegis")
-IMPORTS = IMPORTS + ["SodiumModel.Properties.C01Aegis"]
+IMPORTS = IMPORTS + ["SodiumModel.Properties.C01Aegis", "SodiumModel.Properties.C01AegisAesni"]
+# the AES-NI instantiation of the same generic code (AESENC defined through the FIPS 197 round, validated against the CPU on every run)
+THEOREMS = THEOREMS + vcore.theorems_in("SodiumModel/Properties/C01AegisAesni.lean", ['aesni_backend_ok', 'mm_aesenc_is_aes_round', 'aesni_load64x2_order', 'aesenc_eq_softaes', 'aegis128l_aesni_encrypt_detached_eq', 'aegis256_aesni_encrypt_detached_eq', 'aegis128l_aesni_decrypt_detached_eq', 'aegis256_aesni_decrypt_detached_eq', 'aegis128l_aesni_decrypt_detached_32', 'aegis256_aesni_decrypt_detached_32', 'aegis128l_aesni_decrypt_detached_rc', 'aegis256_aesni_decrypt_detached_rc', 'aesni_decrypt_detached_failure_output', 'aegis128l_aesni_roundtrip', 'aegis256_aesni_roundtrip', 'crypto_aead_aegis128l_aesni_encrypt_detached_eq', 'crypto_aead_aegis256_aesni_encrypt_detached_eq', 'crypto_aead_aegis128l_aesni_decrypt_detached_eq', 'crypto_aead_aegis256_aesni_decrypt_detached_eq', 'aesni_eq_soft_128L', 'aesni_eq_soft_256', 'aesni_eq_soft', 'aesni_eq_soft_decrypt'], "Sodium.C01AegisAesni")
+
+
+def tie_b(ctx):
+    vcore.simd_check(ctx, "aegis", "intrinsics_check.c", ["-maes", "-msse2"], "SimdCheck.lean", True)
+    return []
+
 FINGERPRINTS = "C01"     # Tie B: pinned source text of the transcribed AEGIS / softaes files (tools/fingerprint.py)
 RULE = ("encrypt ops for ChaCha20-Poly1305 (orig, IETF), XChaCha20-Poly1305, AES-256-GCM, AEGIS-128L/256, secretbox (XSalsa20 / XChaCha20), "
         "NaCl zero-padded form and box precomputation: every message length 0..2100 for the IETF AEAD and secretbox, sampled/boundary lengths "
